@@ -58,6 +58,8 @@ CompClauses(r) ==
         \cup (IF Len(o.data) = Len(want) /\ \A j \in 1..Len(want) : Close(o.data[j], want[j]) THEN {} ELSE {"data"})
         \cup (IF Close(o.u_ret, TestBound(u, v)) THEN {} ELSE {"bound"})
         \cup (IF o.u_installed = o.u_ret /\ o.seen = o.data THEN {} ELSE {"installed"})
+        \* setting the margins also installs each assertion's own bound in its test
+        \cup (IF Close(o.u_after_margins, TestBound(u, v)) THEN {} ELSE {"installed:margins"})
         \cup (IF IsNum(o.u_ret) /\ \A j \in 1..Len(o.data) :
                     IsNum(o.data[j]) /\ RLe(RNeg(Tol), RParse(o.data[j])) /\ RLe(RParse(o.data[j]), RAdd(RParse(o.u_ret), Tol))
               THEN {} ELSE {"range"})
